@@ -137,6 +137,7 @@ def _r1_paths(run):
 def _r2_builder(run):
     project = run.project
     ev = sym.make_evaluator(project, BLD, [])
+    ev.self_class = BLD + ".Builder"
     for q, pio in ((BLD + ".Builder.__init__", ("sym", "pio")), (BLD + ".Builder.load_from_wwtl", ("attr", ("sym", "self"), "pio"))):
         f = project.fn(q)
         run.note_func(f)
